@@ -138,3 +138,51 @@ def langs_disjoint(oid, target, a, b, desc, replay=None):
     elif st == UNKNOWN:
         r.detail = str(w)
     return r
+
+
+def ordered_alternation(prop, name, pat, mode="match"):
+    """Backtracking matchers try alternatives left to right.  If alternative i *extends* an earlier alternative j (some word of a_i has a
+    proper prefix in a_j) and a subject can be matched as a whole through either, the shorter one wins and the capture groups are not the
+    intended ones.  Obligation per such pair: L(pattern[branch := a_j]) and L(pattern[branch := a_i]) are disjoint."""
+    from .translate import top_items, branches, lang_with, lang_of_items, re_full
+    out = []
+    try:
+        items, fl = top_items(pat)
+    except Exception as e:
+        return [OR(id=f"{prop}.B.{name.split('.')[-1]}.ordered_alt", status=UNKNOWN, kind="B", target=name, detail=str(e))]
+    short = name.split(".")[-1]
+    import re._constants as C
+
+    def simple(alt):
+        return all(op in (C.LITERAL, C.IN, C.CATEGORY, C.NOT_LITERAL) for op, _ in alt)
+    for bi, av in enumerate(branches(items)):
+        alts = av[1]
+        for i in range(len(alts)):
+            for j in range(i):
+                if not (simple(alts[i]) and simple(alts[j])):
+                    continue          # keyword alternatives only
+                try:
+                    Lj, Li = lang_of_items(alts[j], fl), lang_of_items(alts[i], fl)
+                    # does a_i extend a_j ?
+                    st, w, dt, smt = _solve(lambda s: [z3.InRe(s, Li), z3.InRe(s, z3.Concat(Lj, z3.Plus(z3.Range(chr(0), chr(127)))))], timeout_ms=10000)
+                    if st != REFUTED:
+                        continue
+                    A = lang_with(items, fl, mode, {id(av): j}, av)
+                    B = lang_with(items, fl, mode, {id(av): i}, av)
+                except Unsupported:
+                    continue
+                st, w, dt, smt = _solve(lambda s: [z3.InRe(s, A), z3.InRe(s, B)])
+                r = OR(id=f"{prop}.B.{short}.ordered_alt.b{bi}.{j}_before_{i}", status=st, kind="B", target=name, seconds=dt, smt=smt, backend="z3-seq",
+                       desc=f"alternative #{i} extends the earlier alternative #{j}: no subject can be matched as a whole through both (else the shorter one wins)")
+                if st == REFUTED:
+                    m = getattr(pat, mode)(w)
+                    r.witness = {"string": w}
+                    r.replay = {"confirmed": m is not None, "input": w, "actual": {"groups": m.groups() if m else None},
+                                "expected": f"the longer alternative #{i} to be the one that matches", "how": f"{short}.{mode}({w!r}).groups()"}
+                elif st == UNKNOWN:
+                    r.detail = str(w)
+                out.append(r)
+    if not out:
+        out.append(OR(id=f"{prop}.B.{short}.ordered_alt.none", status=PROVED, kind="B", target=name, backend="ast+z3-seq",
+                      desc="no keyword alternative of this pattern extends an earlier alternative of the same group (nothing can be shadowed)"))
+    return out
